@@ -176,8 +176,9 @@ func shortFrame(c *sim.Ctx) []byte {
 		f = overlongRL(f, 1+t.Int(2))
 	}
 	if len(f) > 16 {
-		// cannot happen with the bounds above; keep the invariant explicit
-		panic(fmt.Sprintf("shortFrame produced %d bytes", len(f)))
+		// the bounds above keep frames short for tapes the generator draws itself; a
+		// tape rewritten by the shrinker may exceed them - fall back to a fixed frame
+		return []byte{0x40, 0x03, 0x00, 0x07, 0x10}
 	}
 	return f
 }
